@@ -186,6 +186,70 @@ theorem toBoc_steps_le (g : Dag) (hg : g.WF) (root : Nat) (hr : root < g.length)
   simp only [toBocSteps, toBoc]
   cases hasIdx <;> cases hasCrc <;> simp <;> omega
 
+/-! ## construction / hashing -/
+
+theorem sumTo_le (f h : Nat → Nat) : ∀ n, (∀ v, v < n → f v ≤ h v) → sumTo f n ≤ sumTo h n := by
+  intro n
+  induction n with
+  | zero => intro _; exact Nat.le_refl _
+  | succ k ih =>
+    intro hk
+    have h1 := ih (fun v hv => hk v (by omega))
+    have h2 := hk k (by omega)
+    simp only [sumTo]; omega
+
+theorem sumTo_add (f h : Nat → Nat) (n : Nat) : sumTo (fun v => f v + h v) n = sumTo f n + sumTo h n := by
+  induction n with
+  | zero => rfl
+  | succ k ih => simp only [sumTo, ih]; omega
+
+theorem sumTo_mul (c : Nat) (f : Nat → Nat) (n : Nat) : sumTo (fun v => c * f v) n = c * sumTo f n := by
+  induction n with
+  | zero => rfl
+  | succ k ih => simp only [sumTo, ih, Nat.mul_add]
+
+theorem sumTo_const (c n : Nat) : sumTo (fun _ => c) n = c * n := by
+  induction n with
+  | zero => rfl
+  | succ k ih => simp only [sumTo, ih, Nat.mul_succ]
+
+theorem hashWork_eq (g : Dag) : hashWork g = 4 * (g.length + edges g) := by
+  have h := sumTo_mul 4 (fun v => 1 + deg g v) g.length
+  have h2 := sumTo_add (fun _ => 1) (deg g) g.length
+  have h3 := sumTo_const 1 g.length
+  simp only [hashWork, edges] at *
+  omega
+
+theorem ctorSteps_le (lv d : Nat) (h : lv ≤ 4) : ctorSteps lv d ≤ 4 + 9 * d := by
+  have h1 : lv * (1 + 2 * d) ≤ 4 * (1 + 2 * d) := Nat.mul_le_mul_right _ h
+  simp only [ctorSteps]; omega
+
+theorem ctorBytes_le (lv d size : Nat) (h : lv ≤ 4) : ctorBytes lv d size ≤ 4 * size + 136 + 136 * d := by
+  have h1 : lv * (max size 34 + 34 * d) ≤ 4 * (max size 34 + 34 * d) := Nat.mul_le_mul_right _ h
+  simp only [ctorBytes]; omega
+
+theorem buildSteps_le (lv : Nat → Nat) (g : Dag) (h : ∀ v, lv v ≤ 4) : buildSteps lv g ≤ 4 * g.length + 9 * edges g := by
+  have h1 := sumTo_le (fun v => ctorSteps (lv v) (deg g v)) (fun v => 4 + 9 * deg g v) g.length
+    (fun v _ => ctorSteps_le _ _ (h v))
+  have h2 := sumTo_add (fun _ => 4) (fun v => 9 * deg g v) g.length
+  have h3 := sumTo_mul 9 (deg g) g.length
+  have h4 := sumTo_const 4 g.length
+  simp only [buildSteps, edges] at *
+  omega
+
+theorem buildBytes_le (lv : Nat → Nat) (g : Dag) (h : ∀ v, lv v ≤ 4) :
+    buildBytes lv g ≤ 4 * cellBytes g + 136 * (g.length + edges g) := by
+  have h1 := sumTo_le (fun v => ctorBytes (lv v) (deg g v) ((g[v]?.map (·.size)).getD 0))
+    (fun v => 4 * ((g[v]?.map (·.size)).getD 0) + (136 + 136 * deg g v)) g.length
+    (fun v _ => by have := ctorBytes_le (lv v) (deg g v) ((g[v]?.map (·.size)).getD 0) (h v); omega)
+  have h2 := sumTo_add (fun v => 4 * ((g[v]?.map (·.size)).getD 0)) (fun v => 136 + 136 * deg g v) g.length
+  have h3 := sumTo_mul 4 (fun v => (g[v]?.map (·.size)).getD 0) g.length
+  have h4 := sumTo_add (fun _ => 136) (fun v => 136 * deg g v) g.length
+  have h5 := sumTo_mul 136 (deg g) g.length
+  have h6 := sumTo_const 136 g.length
+  simp only [buildBytes, cellBytes, edges] at *
+  omega
+
 /-! ## BoC parser -/
 
 theorem cellLoop_bound (sb : Nat) (hsb : 1 ≤ sb) : ∀ (cnt : Nat) (data : Bytes),
